@@ -248,6 +248,26 @@ def _representations(which):
                 with open(os.path.join(d, "ydir", name + ".yaml"), "w") as f:
                     f.write('[\n  data format: "bam",\n  {\n    name: "S",\n    long read files: [\n      "runA/reads.bam",\n      "runB/reads.bam"\n    ]%s\n  }\n]\n' % labels)
                 variants["yaml_" + name] = run("y" + name, ["--yaml", os.path.join("ydir", name + ".yaml")], "chr9.4M.gtf.gz", ["--complete_genedb"])
+        if "sq_order" in which:
+            # the same records in two files whose headers list the reference sequences in different orders (a second, empty contig added)
+            with gzip.open(os.path.join(d, "chr9.4M.fa.gz"), "rt") as fi, open(os.path.join(d, "two.fa"), "w") as fo:
+                fo.write(fi.read())
+                fo.write(">ctg2\n" + "ACGTTGCA" * 600 + "\n")
+            hd = inp.header.to_dict()
+            sq = list(hd["SQ"]) + [{"SN": "ctg2", "LN": 4800}]
+            h1 = pysam.AlignmentHeader.from_dict(dict(hd, SQ=sq))
+            h2 = pysam.AlignmentHeader.from_dict(dict(hd, SQ=list(reversed(sq))))
+            for name, hdr, keep in (("sq_all.bam", h1, None), ("sq_a.bam", h1, 0), ("sq_b.bam", h2, 1)):
+                with pysam.AlignmentFile(os.path.join(d, name), "wb", header=hdr) as out:
+                    for idx, a in enumerate(recs):
+                        if keep is None or idx % 2 == keep:
+                            out.write(pysam.AlignedSegment.from_dict(a.to_dict(), hdr))
+                pysam.index(os.path.join(d, name))
+
+            def run2(name, bams):
+                return run(name, bams, "chr9.4M.gtf.gz", ["--complete_genedb", "-r", "two.fa"])
+            bases["sq_order"] = run2("sqall", ["sq_all.bam"])
+            variants["sq_order"] = run2("sqsplit", ["sq_a.bam", "sq_b.bam"])
         if "replaced_gz" in which:
             # history in one output folder: a run with an annotation file, the file replaced by another release under the same name,
             # a second run into the same folder - it must equal a fresh run with the new release
@@ -288,7 +308,7 @@ def _representations(which):
                 if ref[fn] is None or v[fn] is None:
                     continue
                 a, b = ref[fn], v[fn]
-                if (vname in ("split_bam", "empty_first_bam", "empty_last_bam", "split_by_flag") or vname.startswith("yaml_")) and fn.startswith("S.read_assignments"):
+                if (vname in ("split_bam", "empty_first_bam", "empty_last_bam", "split_by_flag", "sq_order") or vname.startswith("yaml_")) and fn.startswith("S.read_assignments"):
                     # the file label column may differ; compare read id, isoform, type, exons
                     key = lambda l: tuple(l.split("\t")[:8])
                     a, b = sorted(map(key, a)), sorted(map(key, b))
@@ -305,13 +325,13 @@ def replay_repr(d):
 
 
 @bounded("C12.representations", ["C12"], note="real pipeline runs on the bundled chr9 data: the same alignments as one BAM, split over two "
-         "BAMs, accompanied by a BAM without a single record (first or last in the list), split by the duplicate / QC-fail flag bits, or given as two files of one name in two folders through a YAML in a folder of its own, by relative paths, while the working directory holds other files of the same relative names (with and without a shared label) (thorough: also a second run into the same output folder after the gzipped annotation was replaced by another release under the same name, against a fresh run), the annotation gzipped or plain (thorough: also as the pre-built gffutils database and with inferred genes/transcripts) "
+         "BAMs, accompanied by a BAM without a single record (first or last in the list), split by the duplicate / QC-fail flag bits, split over two files whose headers list the reference sequences in different orders, or given as two files of one name in two folders through a YAML in a folder of its own, by relative paths, while the working directory holds other files of the same relative names (with and without a shared label) (thorough: also a second run into the same output folder after the gzipped annotation was replaced by another release under the same name, against a fresh run), the annotation gzipped or plain (thorough: also as the pre-built gffutils database and with inferred genes/transcripts) "
          "must give identical read assignments, corrected alignments and ungrouped reference-based tables (as multisets of records)")
 def c12_repr(tier, rng):
-    which = ["split_bam", "empty_first_bam", "split_by_flag", "yaml_same_names", "plain_gtf"] if tier == "quick" else ["split_bam", "empty_first_bam", "empty_last_bam", "split_by_flag", "yaml_same_names", "replaced_gz", "plain_gtf", "inferred", "prebuilt_db"]
+    which = ["split_bam", "empty_first_bam", "split_by_flag", "sq_order", "yaml_same_names", "plain_gtf"] if tier == "quick" else ["split_bam", "empty_first_bam", "empty_last_bam", "split_by_flag", "sq_order", "yaml_same_names", "replaced_gz", "plain_gtf", "inferred", "prebuilt_db"]
     p = _representations(which)
     viol = []
     if p:
         viol.append({"obligation": "C12.representations", "inputs": {"which": which}, "observed": p[:4],
                      "required": "identical outputs", "replay_call": "contracts.c_inputs:replay_repr"})
-    return {"cases": len(which) + 1 + ("split_by_flag" in which) + 2 * ("replaced_gz" in which) + ("yaml_same_names" in which), "bound": "bundled chr9 data; variants %s" % which, "violations": viol, "samples": [{"variants": which}]}
+    return {"cases": len(which) + 1 + ("split_by_flag" in which) + 2 * ("replaced_gz" in which) + ("yaml_same_names" in which) + ("sq_order" in which), "bound": "bundled chr9 data; variants %s" % which, "violations": viol, "samples": [{"variants": which}]}
